@@ -37,7 +37,7 @@ Nbr(c, shape, st, o) ==
     ELSE 0
 
 Cells(mask) == {c \in 1..Len(mask) : mask[c] = 1}
-MaskOf(S, n) == [c \in 1..n |-> IF c \in S THEN 1 ELSE 0]
+MaskOf(S, n) == SubSeq([c \in 1..n |-> IF c \in S THEN 1 ELSE 0], 1, n)
 
 (* Boundary BY DEFINITION (property C15): region cells with at least one of their       *)
 (* neighbours (directions offs) outside the region or outside the grid.                 *)
@@ -121,10 +121,13 @@ ComponentOfFast(c, S, shape, offs) == ComponentOfMask(c, MaskOf(S, NCells(shape)
 PadShape(shape) == [d \in 1..Len(shape) |-> shape[d] + 2]
 PadMask(mask, shape) ==
     LET ps == PadShape(shape) pst == Strides(ps) st == Strides(shape) n == Len(shape) IN
-    [q \in 1..NCells(ps) |->
-        LET xs == [d \in 1..n |-> Coord(q, ps, pst, d)] IN
-        IF \A d \in 1..n : 1 <= xs[d] /\ xs[d] <= shape[d]
-        THEN mask[1 + SumSeq([d \in 1..n |-> (xs[d] - 1) * st[d]])] ELSE 0]
+    (* SubSeq turns the function expression into an explicit tuple: TLC would otherwise      *)
+    (* re-evaluate the body at every application pm[q]                                      *)
+    SubSeq([q \in 1..NCells(ps) |->
+              LET xs == [d \in 1..n |-> Coord(q, ps, pst, d)] IN
+              IF \A d \in 1..n : 1 <= xs[d] /\ xs[d] <= shape[d]
+              THEN mask[1 + SumSeq([d \in 1..n |-> (xs[d] - 1) * st[d]])] ELSE 0],
+           1, NCells(ps))
 Unpad(q, shape) ==
     LET ps == PadShape(shape) pst == Strides(ps) st == Strides(shape) IN
     1 + SumSeq([d \in 1..Len(shape) |-> (Coord(q, ps, pst, d) - 1) * st[d]])
